@@ -138,7 +138,8 @@ def normal_form(name, params, vin, vout, obj=None):
 
 def close_cells(ctx, case, what, impl, want, rel, abs_):
     for k, (a, b) in enumerate(zip(impl, want)):
-        if a != a or abs(CL.D(a) - CL.D(b)) > CL.D(abs_) + CL.D(rel) * abs(CL.D(b)):
+        rk = rel[k] if isinstance(rel, list) else rel
+        if a != a or abs(CL.D(a) - CL.D(b)) > CL.D(abs_) + CL.D(rk) * abs(CL.D(b)):
             ctx.disagree(case, {"what": what, "index": k, "impl": a, "model": str(b)})
             return False
     return True
@@ -208,10 +209,19 @@ def run(ctx):
             if tag == "scale":
                 rows, w = mo
                 rel, ab = (1e-9, 1e-9 * scale) if name == "MinMaxScaler" else (1e-13, 0)
+                relm, relw = rel, rel
+                if name == "SumScaler":
+                    # dividing by a sum of mixed-sign terms: the rounding error of the sum is relative to the sum of
+                    # the magnitudes, so the tolerance carries the condition number of that sum
+                    def cond(v):
+                        sa, sv = sum(abs(Fraction(x)) for x in v), abs(sum(Fraction(x) for x in v))
+                        return float(sa / sv) if sv else 1.0
+                    relm = [rel * max(1.0, cond([r[j] for r in b["matrix"]])) for j in range(m)]
+                    relw = rel * max(1.0, cond(b["weights"]))
                 for i in range(n):
-                    if not close_cells(ctx, c, f"{name} matrix row {i}", a["matrix"][i], rows[i], rel, ab):
+                    if not close_cells(ctx, c, f"{name} matrix row {i}", a["matrix"][i], rows[i], relm, ab):
                         break
-                close_cells(ctx, c, f"{name} weights", a["weights"], w, rel, ab)
+                close_cells(ctx, c, f"{name} weights", a["weights"], w, relw, ab)
             elif tag == "cenit":
                 for i in range(n):
                     if not close_cells(ctx, c, f"cenit row {i}", a["matrix"][i], mo[i], 1e-13, 0):
